@@ -3,6 +3,7 @@ package main
 import (
 	"fmt"
 	"go/types"
+	"math/big"
 	"sort"
 	"strings"
 
@@ -58,6 +59,7 @@ type BigIntVal struct {
 type BigFloatVal struct {
 	f    *Term // Float64 value
 	prec int
+	conc *big.Float // concrete value (floatbridge.go); nil when symbolic
 }
 type OpaqueVal struct{ what string }
 
